@@ -203,7 +203,16 @@ func (ck *Check) Handle(c *Case) *Violation {
 	ev := Ev(ck.Prop)
 	nt, classes := true, []string(nil)
 	if ck.Classify != nil {
-		nt, classes = ck.Classify(c)
+		// classification works on a copy: it may build the project, and a build must not be able to disturb the case the
+		// oracle is about to judge (e.g. by modifying the source bytes it was given)
+		cc := *c
+		if c.Project != nil {
+			cc.Project = c.Project.Clone()
+		}
+		if c.Project2 != nil {
+			cc.Project2 = c.Project2.Clone()
+		}
+		nt, classes = ck.Classify(&cc)
 	}
 	for i := range classes {
 		classes[i] = ck.Name + ":" + classes[i]
